@@ -28,6 +28,9 @@ CLAIMED = {
  'C15': dict(technique='Coq proofs over R of the norm axioms for the modelled norms + generated Frobenius entry points + exact correspondence on integer-modulus inputs',
              text='Theorems for all shapes over R: the quaternion modulus is multiplicative and sub-additive; the induced 1- and infinity-norms (maximum column/row sum of moduli) and the Frobenius norm are absolutely homogeneous, satisfy the triangle inequality and are sub-multiplicative; max s <= sqrt(sum s^2) <= sqrt(r) max s. All Frobenius entry points generated from utils.py (unified, sparse, legacy quaternion form, legacy component form) have the same radicand = sum of squared moduli. Each definition is compared exactly with the implementation on matrices whose entries have integer moduli.',
              note='Trusted: Coq kernel + stdlib real axioms, qtrans, the hand model of the two induced-norm loops (tied by exact comparison). Axioms of the spectral norm and ||A||_2^2 <= ||A||_1 ||A||_inf are validated numerically only.', ref='7/C15'),
+ 'C16': dict(technique='Coq proofs over R (rotation) and over any commutative ring (substitutions) about hand models + vm_compute correspondence (fixed point 2^-160 / Qc)',
+             text='Theorems: for every pair of quaternions with norm above eps the modelled ggivens rotation [[q1,q3],[q2,q4]] satisfies G^H G = I, G G^H = I and maps (x1,x2) to (norm,0), in both ordering branches; below eps it is the identity. For every n, every number of right-hand sides and every regularisation, forward and backward substitution satisfy the row equation with explicit defect rho(d) = |d|^2/(|d|^2+delta), hence T X = B exactly when delta = 0; the zero-diagonal branch returns a zero row. The models are executed against ggivens, GRSGivens, Hess_QR_ggivens, the two dense solves and UtriangleQsparse.',
+             note='Trusted: Coq kernel + stdlib real axioms (rotation), the hand models (tied by correspondence within 2^-36 / 1e-9, near-tie branches discarded). W R = H / unitarity / triangularity of the whole Hessenberg sweep are checked by the oracle on outputs and by correspondence, not proved. Known finding: eps-regularised inverse of UtriangleQsparse.', ref='7/C16'),
 }
 checks = []
 for pid, c in sorted(CLAIMED.items()):
